@@ -128,12 +128,31 @@ def verdictSeq (impl : String) (s : Sys) (nf : Nat) (prog : List (List Call))
     if lg.any (fun e => valOf e.2.1 != some e.2.2) then "viol:value-mismatch"
     else if (tagCounts lg).any (fun p => p.2 > tagOcc p.1 prog) then "viol:callback-twice"
     else if (List.range nf).any (fun f => valOf f != s.value f) then "viol:first-completion"
-    else if links.any (fun l => (valOf l.2.2).isSome && !((valOf l.1).isSome && valOf l.2.1 == valOf l.2.2))
+    else if links.any (fun l =>
+        -- judged only where the theorems' hypotheses hold: every `complete out` of the program is the link's own
+        prog.flatten.all (fun c => protCall [l.1, l.2.1] l.2.2 c && srcCall l.2.2 l.2.1 c) &&
+        (valOf l.2.2).isSome && !((valOf l.1).isSome && valOf l.2.1 == valOf l.2.2))
       then "viol:chain-order"
     else if (tagCounts s.log).any (fun p => ((tagCounts lg).lookup p.1).getD 0 < p.2) then "viol:callback-lost"
     else if tagCounts lg != tagCounts s.log then "viol:callback-count"
     else "ok"
   | _, _ => "viol:unparsable"
+
+/-- chain programs (op `chain`): for every link `P f g out (L a)` and every `T out (L b)`: `b` logged ⇒ `a`
+    logged earlier (the source completed before the composed future did) -/
+def orderOK (prog : List (List Call)) (links : List (FId × FId × FId)) (tags : List Tag) : Bool :=
+  let calls := prog.flatten
+  links.all fun l =>
+    let as := calls.filterMap fun c => match c with
+      | .thenAccept f (.seq (.log a) (.accept g (.complete o))) => if (f, g, o) = l then some a else none
+      | _ => none
+    let bs := calls.filterMap fun c => match c with
+      | .thenAccept f (.log b) => if f = l.2.2 then some b else none
+      | _ => none
+    as.all fun a => bs.all fun b => match tags.idxOf? b, tags.idxOf? a with
+      | some ib, some ia => ia < ib
+      | some _, none => false
+      | none, _ => true
 
 def verdictPar (impl : String) (s : Sys) (nf : Nat) (prog : List (List Call)) : String :=
   if impl = "hang" then "viol:deadlock" else if impl = "panic" then "viol:panic" else
@@ -146,6 +165,7 @@ def verdictPar (impl : String) (s : Sys) (nf : Nat) (prog : List (List Call)) : 
     else if (tagCounts s.log).any (fun p => (tc.lookup p.1).getD 0 < p.2) then "viol:callback-lost"
     else if tc != tagCounts s.log then "viol:callback-count"
     else if done != mdone then "viol:completion-lost"
+    else if field impl "order" == some "0" then "viol:chain-order"
     else "ok"
   | _, _, _, _ => "viol:unparsable"
 
@@ -162,6 +182,10 @@ def stepCase (c : Case) : String × String :=
       else if c.op = "par" || c.op = "cross" then
         let s := roundRobin .repaired fuel (runThread .repaired fuel s0 0)
         (summary s nf prog, verdictPar c.impl s nf prog)
+      else if c.op = "chain" then
+        let s := roundRobin .repaired fuel (runThread .repaired fuel s0 0)
+        let ord := orderOK prog links (s.log.map (·.1))
+        (summary s nf prog ++ s!" order={if ord then 1 else 0}", verdictPar c.impl s nf prog)
       else ("bad-op", "-")
     | _, _ => ("bad-case", "-")
   | _ => ("bad-case", "-")
